@@ -479,4 +479,58 @@ mod verif_replay_interp {
             assert_eq!(run(&event_doc(g), &[]), fin("pass"), "guard {}", g);
         }
     }
+
+    const CANCEL: &str = r###"<scxml xmlns="http://www.w3.org/2005/07/scxml" initial="s0" version="1.0" datamodel="rfsm-expression">
+ <state id="s0">
+  <onentry><send event="nochild" delay="3s"/></onentry>
+  <invoke type="scxml" id="ticker"><content><scxml xmlns="http://www.w3.org/2005/07/scxml" initial="c0" version="1.0" datamodel="rfsm-expression"><state id="c0"><onentry><send target="#_parent" event="tick"/><send event="again" delay="100ms"/></onentry><transition event="again" target="c0"/></state></scxml></content></invoke>
+  <transition event="tick" target="s1"/>
+  <transition event="nochild" target="childsilent"/>
+ </state>
+ <state id="s1">
+  <onentry><send event="quiet" delay="1s"/></onentry>
+  <transition event="tick" target="notcancelled"/>
+  <transition event="quiet" target="cancelled"/>
+ </state>
+ <final id="cancelled"/><final id="notcancelled"/><final id="childsilent"/>
+</scxml>"###;
+
+    /// C14: a child that keeps sending events is cancelled when the invoking state is exited, and the parent processes
+    /// no event of that child afterwards
+    #[test]
+    fn verif_replay_interp_invoke_cancelled_on_exit() {
+        assert_eq!(run(CANCEL, &[]), fin("cancelled"));
+    }
+
+    fn delay_doc(send: &str) -> String {
+        format!(
+            r###"<scxml xmlns="http://www.w3.org/2005/07/scxml" initial="s0" version="1.0" datamodel="rfsm-expression">
+ <state id="s0">
+  <onentry>{}<raise event="after"/></onentry>
+  <transition event="after" target="pass"/>
+  <transition event="error.execution" target="pass"/>
+ </state>
+ <final id="pass"/>
+</scxml>"###,
+            send
+        )
+    }
+
+    /// C12: no delay value, however large or odd, makes the session thread panic or wedge: the send is either
+    /// scheduled or reported as error.execution and the session carries on
+    #[test]
+    fn verif_replay_interp_extreme_delays() {
+        for c in [
+            r#"<send event="late" delay="1e18ms"/>"#,
+            r#"<send event="late" delayexpr="'1e18ms'"/>"#,
+            r#"<send event="late" delayexpr="'9223372036854775807ms'"/>"#,
+            r#"<send event="late" delayexpr="'1e300d'"/>"#,
+            r#"<send event="late" delayexpr="'100000000d'"/>"#,
+            r#"<send event="late" delayexpr="'-5s'"/>"#,
+            r#"<send event="late" delayexpr="'abc'"/>"#,
+            r#"<send event="late" delayexpr="''"/>"#,
+        ] {
+            assert_eq!(run(&delay_doc(c), &[]), fin("pass"), "content {}", c);
+        }
+    }
 }
